@@ -28,6 +28,9 @@ type c15Cluster struct {
 	Name    string   `json:"name"`
 	Aliases []string `json:"aliases"`
 	Eps     int      `json:"eps"` // number of endpoints (1..3)
+	// server lists synced before the requests start: per sync the state of endpoints 0..eps-1
+	// (0 = not listed, 1 = enabled, 2 = disabled:true); afterwards everything is listed enabled
+	Pre [][]int `json:"pre"`
 }
 
 type c15Req struct {
@@ -147,7 +150,43 @@ func runScenario(c c15Case) interface{} {
 		o.Spec.SecureServing.ServerNames = c.Clusters[ci].Aliases
 		return o
 	}
-	for ci := range c.Clusters {
+	for ci, cl := range c.Clusters {
+		for _, states := range cl.Pre {
+			var servers []serverSpec
+			subsets := [][]string{}
+			for e, s := range eps[ci] {
+				st := 1
+				if e < len(states) {
+					st = states[e]
+				}
+				if st != 0 {
+					servers = append(servers, serverSpec{URL: s.url, Disabled: st == 2})
+				}
+				subsets = append(subsets, []string{s.url})
+			}
+			o := clusterObject(cl.Name, servers, subsets)
+			o.Spec.SecureServing.ServerNames = cl.Aliases
+			must(g.apply(o))
+			// let the probe loops that this sync started do their first probe
+			info, ok := g.ctrl.Manager.Get(cl.Name)
+			if !ok {
+				panic("cluster not created: " + cl.Name)
+			}
+			waitFor(3*time.Second, "pre-history probes", func() bool {
+				for e, s := range eps[ci] {
+					st := 1
+					if e < len(states) {
+						st = states[e]
+					}
+					if st == 1 {
+						if x, ok := info.Endpoints.Load(s.url); !ok || !x.IsReady() {
+							return false
+						}
+					}
+				}
+				return true
+			})
+		}
 		must(g.apply(object(ci, nil)))
 	}
 	// the objects of before the removal, and readiness
